@@ -345,7 +345,7 @@ func (env *Env) ident(name string) Val {
 	case "false":
 		return ConstV{constant.MakeBool(false)}
 	case "nil":
-		return Scalar{IntLit(0), types.Typ[types.UntypedNil]}
+		return Scalar{e.ridLit(0), types.Typ[types.UntypedNil]}
 	}
 	if env.fr != nil {
 		fn := env.fr.fn
@@ -578,8 +578,8 @@ func (env *Env) mapRead(m Scalar, mt *types.Map, key Val, wantHas bool) Val {
 	}
 	kt := e.scalar(key)
 	hk, vk := mapKeys(mt)
-	hm := e.heapGetRaw(env.st, hk, SArr(SInt, SArr(ks, SBool)))
-	has := And(Not(Eq(m.T, IntLit(0))), Select(Select(hm, m.T), kt))
+	hm := e.heapGetRaw(env.st, hk, SArr(e.rs(), SArr(ks, SBool)))
+	has := And(Not(Eq(m.T, e.ridLit(0))), Select(Select(hm, m.T), kt))
 	if wantHas {
 		return Scalar{has, types.Typ[types.Bool]}
 	}
@@ -587,7 +587,7 @@ func (env *Env) mapRead(m Scalar, mt *types.Map, key Val, wantHas bool) Val {
 	idx := 0
 	return e.build(mt.Elem(), func(sl Slot) Term {
 		key := vk + "." + sl.Path
-		vm := e.heapGetRaw(env.st, key, SArr(SInt, SArr(ks, sl.Sort)))
+		vm := e.heapGetRaw(env.st, key, SArr(e.rs(), SArr(ks, sl.Sort)))
 		t := Ite(has, Select(Select(vm, m.T), kt), zt[idx])
 		idx++
 		return t
@@ -614,7 +614,7 @@ func (env *Env) callExpr(n *ast.CallExpr) Val {
 				}
 				if _, isMap := x.Ty.Underlying().(*types.Map); isMap {
 					n := Select(e.mapLenGet(env.st, x.Ty), x.T)
-					return Scalar{Ite(Eq(x.T, IntLit(0)), e.ar.idxLit(0), n), intT}
+					return Scalar{Ite(Eq(x.T, e.ridLit(0)), e.ar.idxLit(0), n), intT}
 				}
 			case ArrayV:
 				return Scalar{e.ar.idxLit(x.Ty.Underlying().(*types.Array).Len()), intT}
@@ -775,12 +775,12 @@ func (env *Env) callExpr(n *ast.CallExpr) Val {
 			}
 			switch v := env.eval(n.Args[0]).(type) {
 			case SliceV:
-				return Scalar{app(SBool, ">=", v.Rid, env.old.alloc), boolT}
+				return Scalar{e.ridLe(env.old.alloc, v.Rid), boolT}
 			case PtrV:
-				return Scalar{app(SBool, ">=", v.Rid, env.old.alloc), boolT}
+				return Scalar{e.ridLe(env.old.alloc, v.Rid), boolT}
 			case Scalar:
 				if _, isMap := v.Ty.Underlying().(*types.Map); isMap {
-					return Scalar{app(SBool, ">=", v.T, env.old.alloc), boolT}
+					return Scalar{e.ridLe(env.old.alloc, v.T), boolT}
 				}
 			}
 			env.fail("fresh() of non-reference")
@@ -1133,7 +1133,7 @@ func (e *Engine) applySpec(inst *specInst, st *State, vals []Val) Val {
 	}
 	for _, r := range inst.regions {
 		rid, _ := ridOf(vals[r.param])
-		ts = append(ts, Select(e.heapGetRaw(st, r.key, SArr(SInt, r.sort)), rid))
+		ts = append(ts, Select(e.heapGetRaw(st, r.key, SArr(e.rs(), r.sort)), rid))
 	}
 	for _, v := range vals {
 		ts = append(ts, dynTerms(v)...)
@@ -1232,7 +1232,7 @@ func (e *Engine) specInstance(sp *SpecFn) *specInst {
 	var body string
 	done := false
 	for iter := 0; iter < 8 && !done; iter++ {
-		probe := &State{cells: map[*ssa.Alloc]*Cell{}, heap: map[string]Term{}, alloc: Term{"alloc!probe", SInt}, guard: TTrue, base: "H!"}
+		probe := &State{cells: map[*ssa.Alloc]*Cell{}, heap: map[string]Term{}, alloc: Term{"alloc!probe", e.rs()}, guard: TTrue, base: "H!"}
 		vals, _ := mkParams()
 		env := &Env{e: e, st: probe, bound: map[string]Val{}, pkg: pkg, pkgRel: sp.PkgRel, qdepth: 1}
 		for i, pn := range pnames {
@@ -1302,7 +1302,7 @@ func (e *Engine) specInstance(sp *SpecFn) *specInst {
 		delete(e.specDone, id)
 		// re-run once with the final layout fixed
 		e.specDone[id] = inst
-		probe := &State{cells: map[*ssa.Alloc]*Cell{}, heap: map[string]Term{}, alloc: Term{"alloc!probe", SInt}, guard: TTrue, base: "H!"}
+		probe := &State{cells: map[*ssa.Alloc]*Cell{}, heap: map[string]Term{}, alloc: Term{"alloc!probe", e.rs()}, guard: TTrue, base: "H!"}
 		vals, _ := mkParams()
 		env := &Env{e: e, st: probe, bound: map[string]Val{}, pkg: pkg, pkgRel: sp.PkgRel, qdepth: 1}
 		for i, pn := range pnames {
